@@ -41,3 +41,367 @@ def range_len(e, c, a):
     lt = e.binop("Lt", r.f[0], r.f[1])
     from .models import ite_int
     return ite_int(lt, e.binop("Sub", r.f[1], r.f[0]), Int(r.f[0].w, r.f[0].s, 0))
+
+
+# ====================================================================== errors (opaque tokens)
+def io_err(kind):
+    return Opaque("ioerr", kind)
+
+
+@model(r"anyhow::__private::format_err|^anyhow::Error::msg|anyhow::__private::must_use|^format_err$|anyhow::Error::new|<anyhow::Error as From<.*>>::from$|anyhow::error::<impl anyhow::Error>::")
+def anyhow_new(e, c, a):
+    if c.endswith("must_use"):
+        return a[0]
+    return Opaque("anyhow", a[0] if a else None)
+
+
+@model(r" as (anyhow::)?Context<.*>>::(context|with_context)(::<.*>)?$")
+def anyhow_context(e, c, a):
+    v = a[0]
+    if c.startswith("<Option") or v.ty == "Option":
+        return ok(v.f[0]) if v.variant == 1 else err(Opaque("anyhow", "context:none"))
+    return v if v.variant == 0 else err(Opaque("anyhow", v.f[0]))
+
+
+@model(r"^std::io::Error::(new|other|from_raw_os_error|last_os_error)|^io::Error::(new|other)|<std::io::Error as From<.*>>::from$|^std::io::Error::kind$|^ErrorKind::")
+def io_error_new(e, c, a):
+    if c.endswith("kind"):
+        return Opaque("errorkind", deref_all(e, a[0]).data)
+    return io_err(a[0] if a else "other")
+
+
+@model(r"<(anyhow::Error|std::io::Error|Opaque) as (Display|Debug)>::fmt$|^anyhow::Error::(to_string|chain|root_cause|downcast_ref)")
+def err_fmt(e, c, a):
+    return ok(UNIT)
+
+
+# ====================================================================== in-memory file system
+class FileData:
+    def __init__(self, data=None):
+        self.data = list(data or [])
+
+
+class FS:
+    """Symbolic file system: path (bytes) -> FileData. `fault_at`: number of bytes that can still be written to any
+    file before the underlying write fails (None = never)."""
+    def __init__(self):
+        self.files = {}
+        self.fault_at = None
+        self.written = 0
+        self.faulted = False
+        self.log = []
+
+
+class FileDesc:
+    def __init__(self, fdata, fs, writable):
+        self.fdata, self.fs, self.pos, self.writable = fdata, fs, 0, writable
+
+
+class FileObj:
+    def __init__(self, desc):
+        self.desc = desc
+        self.variant = None
+
+    def raw_write(self, e, items):
+        """write(2): returns number of bytes accepted or None on error (ENOSPC/EFBIG model)."""
+        d, fs = self.desc, self.desc.fs
+        n = len(items)
+        if fs.fault_at is not None:
+            room = fs.fault_at - fs.written
+            if room <= 0:
+                fs.faulted = True
+                return None
+            n = min(n, room)
+        pos = d.pos
+        if not isinstance(pos, int):
+            pos = e.concretize(pos, len(d.fdata.data))
+        data = d.fdata.data
+        if pos > len(data):
+            data.extend(Int(8, 0, 0) for _ in range(pos - len(data)))
+        data[pos:pos + n] = items[:n]
+        d.pos = pos + n
+        fs.written += n
+        return n
+
+    def write_all(self, e, items):
+        items = list(items)
+        while items:
+            n = self.raw_write(e, items)
+            if n is None:
+                return False
+            items = items[n:]
+        return True
+
+    def read(self, e, n):
+        d = self.desc
+        pos = d.pos
+        if not isinstance(pos, int):
+            pos = e.concretize(pos, len(d.fdata.data))
+        out = d.fdata.data[pos:pos + n]
+        d.pos = pos + len(out)
+        return out
+
+    def seek(self, e, whence, off):
+        d = self.desc
+        size = len(d.fdata.data)
+        if whence == 0:      # Start(u64)
+            d.pos = off.v if off.conc() else off
+            return ok(Int(64, 0, off.v)) if off.conc() else ok(off)
+        base = size if whence == 1 else d.pos
+        if not isinstance(base, int):
+            base = e.concretize(base, size)
+        o = off.sval() if off.conc() else None
+        if o is None:
+            raise Unsupported("seek with symbolic relative offset")
+        if base + o < 0:
+            return err(io_err("EINVAL"))
+        d.pos = base + o
+        return ok(Int(64, 0, d.pos))
+
+
+class BufWriterObj:
+    def __init__(self, inner, cap):
+        self.inner, self.cap, self.buf, self.panicked = inner, cap, [], False
+        self.variant = None
+
+    def write_all(self, e, items):
+        if len(self.buf) + len(items) > self.cap:
+            if not self.flush(e):
+                return False
+        if len(items) >= self.cap:
+            return self.inner.write_all(e, items)
+        self.buf.extend(items)
+        return True
+
+    def flush(self, e):
+        okk = self.inner.write_all(e, self.buf)
+        self.buf = []
+        return okk
+
+    def on_drop(self, e):
+        self.flush(e)       # BufWriter::drop flushes and ignores errors
+
+
+class CursorObj:
+    def __init__(self, inner):
+        self.inner, self.pos = inner, 0
+        self.variant = None
+
+    def read(self, e, n):
+        l, lo, hi = e.seq_of(self.inner)
+        pos = self.pos if isinstance(self.pos, int) else e.concretize(self.pos, hi - lo)
+        out = l[lo + pos:min(lo + pos + n, hi)]
+        self.pos = pos + len(out)
+        return out
+
+
+def _fs(e):
+    if getattr(e, "fs", None) is None:
+        e.fs = FS()
+    return e.fs
+
+
+def _path_bytes(e, v):
+    v = deref_all(e, v) if isinstance(v, Ref) and not isinstance(e.load(v), (VecObj, Agg)) else v
+    return e.bytes_of(v)
+
+
+@model(r"^File::open::<|^std::fs::File::open::<|^File::create::<|^std::fs::File::create::<")
+def file_open(e, c, a):
+    fs = _fs(e); p = _path_bytes(e, a[0])
+    if "create" in c:
+        if getattr(fs, "create_fails", False):
+            return err(io_err("EACCES"))
+        fd = FileData(); fs.files[p] = fd      # truncate-on-create
+        fs.log.append(("create", p))
+        return ok(FileObj(FileDesc(fd, fs, True)))
+    if p not in fs.files:
+        return err(io_err("ENOENT"))
+    return ok(FileObj(FileDesc(fs.files[p], fs, False)))
+
+
+@model(r"^File::try_clone$|^std::fs::File::try_clone$")
+def file_try_clone(e, c, a):
+    return ok(FileObj(deref_all(e, a[0]).desc))
+
+
+@model(r"^File::metadata$|^std::fs::File::metadata$|^std::fs::metadata::<")
+def file_metadata(e, c, a):
+    if "fs::metadata" in c:
+        fs = _fs(e); p = _path_bytes(e, a[0])
+        if p not in fs.files:
+            return err(io_err("ENOENT"))
+        return ok(Opaque("metadata", len(fs.files[p].data)))
+    return ok(Opaque("metadata", len(deref_all(e, a[0]).desc.fdata.data)))
+
+
+@model(r"^Metadata::len$|^std::fs::Metadata::len$")
+def metadata_len(e, c, a):
+    return Int(64, 0, deref_all(e, a[0]).data)
+
+
+@model(r"^File::sync_all$|^File::sync_data$|^File::set_len$")
+def file_sync(e, c, a):
+    return ok(UNIT)
+
+
+@model(r"^BufReader::<.*>::(new|with_capacity)$|^std::io::BufReader::<.*>::(new|with_capacity)$")
+def bufreader_new(e, c, a):
+    return a[-1]        # reads go straight to the inner reader (no observable difference: every read is preceded by a seek)
+
+
+@model(r"^BufWriter::<.*>::(new|with_capacity)$|^std::io::BufWriter::<.*>::(new|with_capacity)$")
+def bufwriter_new(e, c, a):
+    cap = a[0].v if "with_capacity" in c else 8192
+    return BufWriterObj(a[-1], cap)
+
+
+@model(r"^Cursor::<.*>::new$|^std::io::Cursor::<.*>::new$")
+def cursor_new(e, c, a):
+    return CursorObj(a[0])
+
+
+@model(r"^Cursor::<.*>::(position|set_position|into_inner|get_ref)$")
+def cursor_ops(e, c, a):
+    cur = deref_all(e, a[0]); m = c.rsplit("::", 1)[1]
+    if m == "position":
+        return Int(64, 0, cur.pos) if isinstance(cur.pos, int) else cur.pos
+    if m == "set_position":
+        cur.pos = a[1].v if a[1].conc() else a[1]; return UNIT
+    return cur.inner
+
+
+def _sink(e, w):
+    """Resolve a writer argument (&mut W) to the object that receives bytes."""
+    v = w
+    for _ in range(6):
+        if isinstance(v, Ref):
+            t = e.load(v)
+            if isinstance(t, VecObj):
+                return t
+            v = t; continue
+        break
+    return v
+
+
+@model(r" as (std::io::)?Write>::(write_all|write|flush)$|^std::io::Write::(write_all|write|flush)$")
+def io_write(e, c, a):
+    w = _sink(e, a[0]); m = c.rsplit("::", 1)[1]
+    if m == "flush":
+        if isinstance(w, VecObj) or isinstance(w, (FileObj,)):
+            return ok(UNIT)
+        if isinstance(w, BufWriterObj):
+            return ok(UNIT) if w.flush(e) else err(io_err("ENOSPC"))
+        if hasattr(w, "flush_model"):
+            return w.flush_model(e)
+        raise Unsupported(f"flush on {w!r}")
+    l, lo, hi = e.seq_of(a[1]); items = l[lo:hi]
+    if isinstance(w, VecObj):
+        w.e.extend(items); good = True
+    elif isinstance(w, (FileObj, BufWriterObj)):
+        good = w.write_all(e, items)
+    elif hasattr(w, "write_model"):
+        good = w.write_model(e, items)
+    else:
+        raise Unsupported(f"write on {w!r}")
+    if not good:
+        return err(io_err("ENOSPC"))
+    return ok(UNIT) if m == "write_all" else ok(usize(len(items)))
+
+
+def _source(e, r):
+    v = r
+    for _ in range(6):
+        if isinstance(v, Ref):
+            v = e.load(v); continue
+        break
+    return v
+
+
+@model(r" as (std::io::)?Read>::(read_exact|read|read_to_end|read_to_string)$")
+def io_read(e, c, a):
+    src = _source(e, a[0]); m = c.rsplit("::", 1)[1]
+    if isinstance(src, Slice):           # impl Read for &[u8]
+        ref = a[0]
+        while isinstance(e.load(ref), Ref):
+            ref = e.load(ref)
+
+        class _S:
+            def read(self, e2, n):
+                sl = e2.load(ref); n2 = min(n, sl.hi - sl.lo)
+                l, lo, hi = e2.seq_of(sl)
+                e2.store(ref, Slice(sl.cell, sl.path, sl.lo + n2, sl.hi))
+                return l[lo:lo + n2]
+        src = _S()
+    if not hasattr(src, "read"):
+        raise Unsupported(f"read on {src!r}")
+    if m in ("read_to_end", "read_to_string"):
+        out = src.read(e, 1 << 40)
+        e.load(a[1]).e.extend(out)
+        return ok(usize(len(out)))
+    l, lo, hi = e.seq_of(a[1])
+    want = hi - lo
+    if m == "read_exact":
+        got = src.read(e, want)
+        if len(got) < want:
+            return err(io_err("UnexpectedEof"))
+        l[lo:hi] = got
+        return ok(UNIT)
+    got = src.read(e, want)
+    l[lo:lo + len(got)] = got
+    return ok(usize(len(got)))
+
+
+@model(r" as (std::io::)?Seek>::(seek|stream_position|rewind)$")
+def io_seek(e, c, a):
+    f = _source(e, a[0]); m = c.rsplit("::", 1)[1]
+    if isinstance(f, BufWriterObj):
+        if not f.flush(e):
+            return err(io_err("ENOSPC"))
+        f = f.inner
+    if m == "stream_position":
+        p = f.desc.pos
+        return ok(Int(64, 0, p) if isinstance(p, int) else p)
+    if m == "rewind":
+        f.desc.pos = 0; return ok(UNIT)
+    sf = a[1]
+    if isinstance(f, CursorObj):
+        if sf.variant == 0:
+            f.pos = sf.f[0].v if sf.f[0].conc() else sf.f[0]
+            return ok(sf.f[0])
+        raise Unsupported("cursor relative seek")
+    return f.seek(e, sf.variant, sf.f[0])
+
+
+@model(r" as AsRef<(std::path::)?Path>>::as_ref$| as AsRef<OsStr>>::as_ref$|^Path::new::<|^std::path::Path::new::<|^Path::(to_path_buf|as_os_str|to_str|to_string_lossy|display)$|^PathBuf::(as_path|from)|<PathBuf as Deref>::deref$|^OsStr::to_str$")
+def path_identity(e, c, a):
+    if c.endswith("to_str"):
+        return some(e.as_slice(a[0]))
+    if c.endswith("to_path_buf"):
+        l, lo, hi = e.seq_of(a[0]); return VecObj(l[lo:hi], "String")
+    if c.endswith("to_string_lossy"):
+        return Agg([e.as_slice(a[0])], 0, "Cow")
+    v = a[0]
+    if isinstance(v, Ref):
+        t = e.load(v)
+        if isinstance(t, (Slice,)):
+            return t
+        if isinstance(t, VecObj):
+            return e.as_slice(v)
+    return v
+
+
+@model(r"^std::fs::(remove_file|create_dir_all|rename|copy)::<")
+def fs_ops(e, c, a):
+    fs = _fs(e)
+    if "remove_file" in c:
+        p = _path_bytes(e, a[0])
+        if p in fs.files:
+            del fs.files[p]; return ok(UNIT)
+        return err(io_err("ENOENT"))
+    if "rename" in c:
+        p, q = _path_bytes(e, a[0]), _path_bytes(e, a[1])
+        if p not in fs.files:
+            return err(io_err("ENOENT"))
+        fs.files[q] = fs.files.pop(p); return ok(UNIT)
+    return ok(UNIT)
